@@ -146,11 +146,50 @@ ad.primitive_jvps[sinv_p] = _inv_jvp
 # transpose them for reverse mode (vjp) without further rules.
 
 
+# ---- PRNG markers (A3): split / uniform / normal of jax.random become single named equations ----------------------------
+import jax.random as _jr
+
+_orig.update(split=_jr.split, uniform=_jr.uniform, normal=_jr.normal)
+
+
+def _mkrand(name, impl, absfn):
+    p = jcore.Primitive(name)
+    p.def_impl(impl)
+    p.def_abstract_eval(absfn)
+    mlir.register_lowering(p, mlir.lower_fun(impl, multiple_results=False))
+    return p
+
+
+srand_split_p = _mkrand("srand_split", lambda k, num=2: _orig["split"](k, num),
+                        lambda k, num=2: _sa((num,) + tuple(k.shape), k.dtype))
+srand_uniform_p = _mkrand("srand_uniform", lambda k, shape=(): _orig["uniform"](k, shape=shape),
+                          lambda k, shape=(): _sa(shape, jnp.float64))
+srand_normal_p = _mkrand("srand_normal", lambda k, shape=(): _orig["normal"](k, shape=shape),
+                         lambda k, shape=(): _sa(shape, jnp.float64))
+
+
+def srand_split(key, num=2):
+    return srand_split_p.bind(jnp.asarray(key), num=int(num))
+
+
+def srand_uniform(key, shape=(), dtype=None, minval=0.0, maxval=1.0):
+    assert minval == 0.0 and maxval == 1.0
+    return srand_uniform_p.bind(jnp.asarray(key), shape=tuple(shape))
+
+
+def srand_normal(key, shape=(), dtype=None):
+    return srand_normal_p.bind(jnp.asarray(key), shape=tuple(shape))
+
+
 @contextlib.contextmanager
-def installed(det=True, inv=True, expm=True, qr=False, eigh=False):
+def installed(det=True, inv=True, expm=True, qr=False, eigh=False, random=False):
     """patch jnp.linalg / jsp.linalg inside the block"""
     saved = (jnp.linalg.det, jnp.linalg.inv, jsp.linalg.expm, jnp.linalg.qr, jnp.linalg.eigh)
+    saved_r = (_jr.split, _jr.uniform, _jr.normal)
     try:
+        if random:
+            _jr.split, _jr.uniform, _jr.normal = srand_split, srand_uniform, srand_normal
+            jax.random.split, jax.random.uniform, jax.random.normal = srand_split, srand_uniform, srand_normal
         if det:
             jnp.linalg.det = sdet
         if inv:
@@ -164,6 +203,8 @@ def installed(det=True, inv=True, expm=True, qr=False, eigh=False):
         yield
     finally:
         jnp.linalg.det, jnp.linalg.inv, jsp.linalg.expm, jnp.linalg.qr, jnp.linalg.eigh = saved
+        _jr.split, _jr.uniform, _jr.normal = saved_r
+        jax.random.split, jax.random.uniform, jax.random.normal = saved_r
 
 
 def validate(seed=0):
